@@ -14,7 +14,7 @@ def poisson_prob_scale(x: ArrayLike):
     with warnings.catch_warnings():
         warnings.filterwarnings('ignore')
         out = np.where(np.absolute(x) < 1e-3,
-                1 - x/2 + x**2/6 - x**3/24,
+                1 - x/2 + x**2/6 - x**3/24 + x**4/120,
                 -np.expm1(-x)/x)
     return out
 
